@@ -1,0 +1,120 @@
+//! Read-only introspection hooks for the external verification harness.
+//!
+//! This module and all `verif_*` functions in this crate are only compiled
+//! with `--cfg futures_intrusive_verif`. They never modify any state of the
+//! primitives; they only report it as plain data.
+
+use alloc::vec::Vec;
+use core::task::Waker;
+
+pub use crate::intrusive_double_linked_list::{LinkedList, ListNode};
+pub use crate::intrusive_pairing_heap::{HeapNode, PairingHeap};
+pub use crate::noop_lock::NoopLock;
+
+/// Upper bound for the number of nodes which are visited when walking a
+/// wait queue. Protects the harness against cyclic (corrupted) queues.
+pub const WALK_LIMIT: usize = 64;
+
+/// Value reported for "no value"
+pub const NO_VALUE: u64 = core::u64::MAX;
+
+/// Plain data description of one wait node
+#[derive(Clone, Debug, Default, PartialEq, Eq)]
+pub struct NodeSnap {
+    /// Address of the list/heap node
+    pub addr: usize,
+    /// The poll state of the node (declaration order of the enum)
+    pub tag: u8,
+    /// `Waker::data()` of the stored waker
+    pub waker: Option<usize>,
+    /// required permits / requested state id / expiry / tag of the parked value
+    pub extra: u64,
+    /// Depth inside the heap (0 for list nodes and the heap root)
+    pub depth: u32,
+    /// Raw links: list `[prev, next, 0, 0]`, heap `[parent, prev, next, first_child]`
+    pub links: [usize; 4],
+}
+
+/// Plain data description of a primitive
+#[derive(Clone, Debug, Default)]
+pub struct Snapshot {
+    /// Scalar state fields, in declaration order
+    pub scalars: Vec<u64>,
+    /// Tags of buffered values, oldest first
+    pub buffer: Vec<u64>,
+    /// The wait queues (front to back), or the heap in pre-order
+    pub queues: Vec<Vec<NodeSnap>>,
+    /// Structural inconsistencies which were found while walking the queues
+    pub errors: Vec<&'static str>,
+}
+
+/// Returns the identity of a stored waker
+pub fn waker_id(waker: &Option<Waker>) -> Option<usize> {
+    waker.as_ref().map(|w| w.data() as usize)
+}
+
+/// Describes a single list node
+pub fn snap_list_node<T>(
+    node: &ListNode<T>,
+    describe: &dyn Fn(&T) -> (u8, Option<usize>, u64),
+) -> NodeSnap {
+    let (tag, waker, extra) = describe(&**node);
+    let links = node.verif_links();
+    NodeSnap {
+        addr: node as *const ListNode<T> as usize,
+        tag,
+        waker,
+        extra,
+        depth: 0,
+        links: [links[0], links[1], 0, 0],
+    }
+}
+
+/// Describes a single heap node
+pub fn snap_heap_node<T>(
+    node: &HeapNode<T>,
+    depth: u32,
+    describe: &dyn Fn(&T) -> (u8, Option<usize>, u64),
+) -> NodeSnap {
+    let (tag, waker, extra) = describe(&**node);
+    NodeSnap {
+        addr: node as *const HeapNode<T> as usize,
+        tag,
+        waker,
+        extra,
+        depth,
+        links: node.verif_links(),
+    }
+}
+
+/// Adds the content of a list to a snapshot
+pub fn snap_list<T>(
+    list: &LinkedList<T>,
+    out: &mut Snapshot,
+    describe: &dyn Fn(&T) -> (u8, Option<usize>, u64),
+) {
+    let mut queue = Vec::new();
+    let result = list.verif_walk(WALK_LIMIT, &mut |node| {
+        queue.push(snap_list_node(node, describe));
+    });
+    if let Err(e) = result {
+        out.errors.push(e);
+    }
+    out.queues.push(queue);
+}
+
+/// Adds the content of a heap to a snapshot
+pub fn snap_heap<T>(
+    heap: &PairingHeap<T>,
+    out: &mut Snapshot,
+    describe: &dyn Fn(&T) -> (u8, Option<usize>, u64),
+) {
+    let mut queue = Vec::new();
+    let result = heap.verif_walk(WALK_LIMIT, &mut |node, depth| {
+        queue.push(snap_heap_node(node, depth, describe));
+    });
+    if let Err(e) = result {
+        out.errors.push(e);
+    }
+    out.queues.push(queue);
+}
